@@ -1,61 +1,70 @@
 """C08 / C09(c) / C15 — initialize(state_info, log_info) of every class: what is reset and what is left alone."""
 
-define("task_initialized(t, si, li)",
+define("task_init_a(t, si, li)",
        "implies(si, t.est == 0.0 and t.eft == 0.0 and t.lst == -1.0 and t.lft == -1.0"
        "   and t.remaining_work_amount == t.default_work_amount * (1.0 - t.default_progress)"
        "   and t.actual_work_amount == t.default_work_amount * (1.0 - t.default_progress)"
        "   and len(t.allocated_worker_list) == 0 and len(t.allocated_facility_list) == 0 and not t.additional_task_flag"
-       "   and t.state == ite(li and t.default_progress >= 1.00 - 1e-10, BaseTaskState.FINISHED, BaseTaskState.NONE))"
-       " and implies(not si, t.est == old(t.est) and t.eft == old(t.eft) and t.lst == old(t.lst) and t.lft == old(t.lft)"
+       "   and t.state == ite(li and t.default_progress >= 1.00 - 1e-10, BaseTaskState.FINISHED, BaseTaskState.NONE))")
+define("task_init_b(t, si, li)",
+       "implies(not si, t.est == old(t.est) and t.eft == old(t.eft) and t.lst == old(t.lst) and t.lft == old(t.lft)"
        "   and t.remaining_work_amount == old(t.remaining_work_amount) and t.actual_work_amount == old(t.actual_work_amount)"
-       "   and seq_eq(t.allocated_worker_list, old(t.allocated_worker_list)) and seq_eq(t.allocated_facility_list, old(t.allocated_facility_list))"
-       "   and t.additional_task_flag == old(t.additional_task_flag) and t.state == old(t.state))"
-       " and implies(li, len(t.state_record_list) == 0 and len(t.remaining_work_amount_record_list) == 0"
+       "   and same(t.allocated_worker_list, old(t.allocated_worker_list)) and same(t.allocated_facility_list, old(t.allocated_facility_list))"
+       "   and t.additional_task_flag == old(t.additional_task_flag) and t.state == old(t.state))")
+define("task_init_c(t, si, li)",
+       "implies(li, len(t.state_record_list) == 0 and len(t.remaining_work_amount_record_list) == 0"
        "   and len(t.allocated_worker_id_record) == 0 and len(t.allocated_facility_id_record) == 0)"
        " and implies(not li, task_logs_kept(t))")
+define("task_initialized(t, si, li)", "task_init_a(t, si, li) and task_init_b(t, si, li) and task_init_c(t, si, li)")
 TASK_STATE_FIELDS = ["est", "eft", "lst", "lft", "remaining_work_amount", "actual_work_amount", "allocated_worker_list",
                      "allocated_facility_list", "additional_task_flag", "state"]
 TASK_LOG_FIELDS = ["state_record_list", "remaining_work_amount_record_list", "allocated_worker_id_record", "allocated_facility_id_record"]
 contract("BaseTask.initialize", props=["C08", "C02", "C01", "C09", "C15"],
          types={"state_info": "Bool", "log_info": "Bool"},
-         ensures=[("reset", "task_initialized(self, state_info, log_info)")],
+         ensures=[("reset", "task_initialized(self, state_info, log_info)"),
+                  ("nothing-written-without-state-info", "implies(not state_info, unchanged('BaseTask.allocated_worker_list', 'BaseTask.allocated_facility_list', 'BaseTask.state', 'BaseTask.remaining_work_amount'))")],
          modifies=["BaseTask.%s@self" % f for f in TASK_STATE_FIELDS + TASK_LOG_FIELDS])
 
 for cls, st in (("BaseWorker", "BaseWorkerState"), ("BaseFacility", "BaseFacilityState")):
     pred = "%s_initialized" % cls[4:].lower()
     define("%s(r, si, li)" % pred,
            "implies(si, r.state == %s.FREE and len(r.assigned_task_list) == 0)" % st +
-           " and implies(not si, r.state == old(r.state) and seq_eq(r.assigned_task_list, old(r.assigned_task_list)))"
+           " and implies(not si, r.state == old(r.state) and same(r.assigned_task_list, old(r.assigned_task_list)))"
            " and implies(li, len(r.state_record_list) == 0 and len(r.cost_list) == 0 and len(r.assigned_task_id_record) == 0)"
-           " and implies(not li, seq_eq(r.state_record_list, old(r.state_record_list)) and seq_eq(r.cost_list, old(r.cost_list))"
-           "   and seq_eq(r.assigned_task_id_record, old(r.assigned_task_id_record)))")
+           " and implies(not li, same(r.state_record_list, old(r.state_record_list)) and same(r.cost_list, old(r.cost_list))"
+           "   and same(r.assigned_task_id_record, old(r.assigned_task_id_record)))")
     contract(cls + ".initialize", props=["C08", "C09", "C15"], types={"state_info": "Bool", "log_info": "Bool"},
-             ensures=[("reset", "%s(self, state_info, log_info)" % pred)],
+             ensures=[("reset", "%s(self, state_info, log_info)" % pred),
+                      ("nothing-written-without-state-info", "implies(not state_info, unchanged('%s.state', '%s.assigned_task_list'))" % (cls, cls))],
              modifies=["%s.%s@self" % (cls, f) for f in ("state", "assigned_task_list", "state_record_list", "cost_list", "assigned_task_id_record")])
 
 RES_FIELDS = ("state", "assigned_task_list", "state_record_list", "cost_list", "assigned_task_id_record")
 contract("BaseTeam.initialize", props=["C08", "C09", "C15"], types={"state_info": "Bool", "log_info": "Bool"},
          requires=["forall(self.worker_list, lambda w: w is not None)", "distinct_list(self.worker_list)"],
-         ensures=[("own-log", "ite(log_info, len(self.cost_list) == 0, seq_eq(self.cost_list, old(self.cost_list)))"),
-                  ("workers", "forall(self.worker_list, lambda w: worker_initialized(w, state_info, log_info))")],
+         ensures=[("own-log", "ite(log_info, len(self.cost_list) == 0, same(self.cost_list, old(self.cost_list)))"),
+                  ("workers", "forall(self.worker_list, lambda w: worker_initialized(w, state_info, log_info))"),
+                  ("nothing-written-without-state-info", "implies(not state_info, unchanged('BaseWorker.state', 'BaseWorker.assigned_task_list'))")],
          modifies=["BaseTeam.cost_list@self"] + ["BaseWorker.%s@self.worker_list" % f for f in RES_FIELDS],
          loops={0: [("done", "forall_int(0, _i, lambda k: worker_initialized(self.worker_list[k], state_info, log_info))"),
                     ("todo", "forall_int(_i, len(self.worker_list), lambda k: let(self.worker_list[k], lambda r: r.state == old(r.state)"
-                             " and seq_eq(r.assigned_task_list, old(r.assigned_task_list)) and seq_eq(r.state_record_list, old(r.state_record_list))"
-                             " and seq_eq(r.cost_list, old(r.cost_list)) and seq_eq(r.assigned_task_id_record, old(r.assigned_task_id_record))))"),
+                             " and same(r.assigned_task_list, old(r.assigned_task_list)) and same(r.state_record_list, old(r.state_record_list))"
+                             " and same(r.cost_list, old(r.cost_list)) and same(r.assigned_task_id_record, old(r.assigned_task_id_record))))"),
+                    ("kept", "implies(not state_info, unchanged('BaseWorker.state', 'BaseWorker.assigned_task_list'))"),
                     ("frame", " and ".join("unchanged_except('BaseWorker.%s', self.worker_list)" % f for f in RES_FIELDS))]})
 contract("BaseWorkplace.initialize", props=["C08", "C09", "C15", "C13"], types={"state_info": "Bool", "log_info": "Bool"},
          requires=["forall(self.facility_list, lambda w: w is not None)", "distinct_list(self.facility_list)"],
          ensures=[("own-logs", "ite(log_info, len(self.cost_list) == 0 and len(self.placed_component_id_record) == 0,"
-                               " seq_eq(self.cost_list, old(self.cost_list)) and seq_eq(self.placed_component_id_record, old(self.placed_component_id_record)))"),
-                  ("placement", "ite(state_info, len(self.placed_component_list) == 0, seq_eq(self.placed_component_list, old(self.placed_component_list)))"),
-                  ("facilities", "forall(self.facility_list, lambda w: facility_initialized(w, state_info, log_info))")],
+                               " same(self.cost_list, old(self.cost_list)) and same(self.placed_component_id_record, old(self.placed_component_id_record)))"),
+                  ("placement", "ite(state_info, len(self.placed_component_list) == 0, same(self.placed_component_list, old(self.placed_component_list)))"),
+                  ("facilities", "forall(self.facility_list, lambda w: facility_initialized(w, state_info, log_info))"),
+                  ("nothing-written-without-state-info", "implies(not state_info, unchanged('BaseFacility.state', 'BaseFacility.assigned_task_list'))")],
          modifies=["BaseWorkplace.cost_list@self", "BaseWorkplace.placed_component_id_record@self", "BaseWorkplace.placed_component_list@self"]
                   + ["BaseFacility.%s@self.facility_list" % f for f in RES_FIELDS],
          loops={0: [("done", "forall_int(0, _i, lambda k: facility_initialized(self.facility_list[k], state_info, log_info))"),
                     ("todo", "forall_int(_i, len(self.facility_list), lambda k: let(self.facility_list[k], lambda r: r.state == old(r.state)"
-                             " and seq_eq(r.assigned_task_list, old(r.assigned_task_list)) and seq_eq(r.state_record_list, old(r.state_record_list))"
-                             " and seq_eq(r.cost_list, old(r.cost_list)) and seq_eq(r.assigned_task_id_record, old(r.assigned_task_id_record))))"),
+                             " and same(r.assigned_task_list, old(r.assigned_task_list)) and same(r.state_record_list, old(r.state_record_list))"
+                             " and same(r.cost_list, old(r.cost_list)) and same(r.assigned_task_id_record, old(r.assigned_task_id_record))))"),
+                    ("kept", "implies(not state_info, unchanged('BaseFacility.state', 'BaseFacility.assigned_task_list'))"),
                     ("frame", " and ".join("unchanged_except('BaseFacility.%s', self.facility_list)" % f for f in RES_FIELDS))]})
 
 contract("BaseProduct.initialize", props=["C08", "C14", "C09", "C15"], types={"state_info": "Bool", "log_info": "Bool"},
